@@ -1019,6 +1019,198 @@ func vfReg(f []string) string {
 	return "reg " + strings.Join(obs, " | ")
 }
 
+// ---------------------------------------------------------------- churn on ONE tuple
+//
+//	churn <kind> <cap> <budget_ms> <iters> <nU> <nC> <nE> <noise>
+//
+// nU goroutines loop UnregisterSeries(A), nC loop WithLabelValues(A)+emit(1) keeping every handle they were given,
+// nE loop emit-by-tuple(A,1); all of them meet at a spin barrier before EVERY iteration so the three parties overlap
+// again and again on a warm metric.  At quiescence every distinct handle ever handed out emits once more, then the
+// conservation monitor decides: each handle must be the tombstone, in the series map, or stale, and
+// live + stale series values + cardinality_drops + unknown + stale_handle_emits == emitted.
+type vfBarrier struct {
+	gen atomic.Int64
+	cnt atomic.Int32
+	n   int32
+}
+
+func (b *vfBarrier) wait() {
+	g := b.gen.Load()
+	if b.cnt.Add(1) == b.n {
+		b.cnt.Store(0)
+		b.gen.Add(1)
+		return
+	}
+	spins := 0
+	for b.gen.Load() == g {
+		vfSpin(&spins)
+	}
+}
+
+func (x vfHandle) churnScalar() uint64 {
+	if x.g != nil {
+		return uint64(int64(x.g.Value()))
+	}
+	return x.scalar()
+}
+
+type vfChurnStats struct{ orphans, lost, overcap, drift, alias, rounds int64 }
+
+func vfChurnRound(kind string, cap, iters, nU, nC, nE int, noise bool, st *vfChurnStats) {
+	var bks []float64
+	if kind == "h" {
+		bks = []float64{1, 5}
+	}
+	m := vfNewMetric(kind, cap, 1, bks)
+	defer m.r.Shutdown(context.Background())
+	tupA := []string{"A"}
+	h0 := m.resolve(tupA)
+	n := nU + nC + nE
+	bar := &vfBarrier{n: int32(n)}
+	held := make([][]vfHandle, nC)
+	var emitted atomic.Uint64
+	var wg sync.WaitGroup
+	stopNoise := make(chan struct{})
+	var nwg sync.WaitGroup
+	if noise {
+		nwg.Add(1)
+		started := make(chan struct{})
+		go func() {
+			defer nwg.Done()
+			stuck := m.r.Subscribe(SubscribeOptions{BufferSize: 1})
+			defer stuck.Unsubscribe()
+			close(started)
+			var buf []Sample
+			for {
+				select {
+				case <-stopNoise:
+					return
+				default:
+				}
+				buf = m.r.AppendSnapshot(buf[:0], SnapshotOptions{})
+				m.r.publishTick(nil, time.Unix(0, 0))
+			}
+		}()
+		<-started
+	}
+	for i := 0; i < n; i++ {
+		wg.Add(1)
+		go func(i int) {
+			defer wg.Done()
+			for k := 0; k < iters; k++ {
+				bar.wait()
+				switch {
+				case i < nU:
+					m.unreg(tupA)
+				case i < nU+nC:
+					h := m.resolve(tupA)
+					h.emit(false, "1")
+					emitted.Add(1)
+					held[i-nU] = append(held[i-nU], h)
+				default:
+					m.emitT(false, "1", tupA)
+					emitted.Add(1)
+				}
+			}
+		}(i)
+	}
+	wg.Wait()
+	close(stopNoise)
+	nwg.Wait()
+	// quiescent: every distinct handle emits once more
+	distinct := map[any]vfHandle{h0.key(): h0}
+	for _, l := range held {
+		for _, h := range l {
+			distinct[h.key()] = h
+		}
+	}
+	for _, h := range distinct {
+		h.emit(false, "1")
+		emitted.Add(1)
+	}
+	inMap := map[any]bool{}
+	nseries := 0
+	m.series().Range(func(_, v any) bool {
+		inMap[m.wrap(v).key()] = true
+		nseries++
+		return true
+	})
+	var visible uint64
+	for _, h := range distinct {
+		switch {
+		case h.tomb():
+		case inMap[h.key()] || h.stale():
+			visible += h.churnScalar()
+			if len(h.labelValues()) != 1 || h.labelValues()[0] != "A" {
+				st.alias++
+			}
+		default:
+			st.orphans++
+		}
+	}
+	// a series in the map that nobody holds would be a handle the harness lost track of
+	for k := range inMap {
+		if _, ok := distinct[k]; !ok {
+			m.series().Range(func(_, v any) bool {
+				if h := m.wrap(v); h.key() == k {
+					visible += h.churnScalar()
+				}
+				return true
+			})
+		}
+	}
+	var mi metric
+	switch kind {
+	case "c":
+		mi = m.c
+	case "g":
+		mi = m.g
+	default:
+		mi = m.h
+	}
+	visible += mi.cardinalityDropsLoad() + mi.unknownSeriesEmitsLoad() + mi.staleHandleEmitsLoad()
+	if d := int64(emitted.Load() - visible); d != 0 {
+		if d < 0 {
+			d = -d
+		}
+		st.lost += d
+	}
+	capEff := cap
+	if capEff == 0 {
+		capEff = DefaultMaxSeriesPerMetric
+	}
+	if capEff > 0 && nseries > capEff {
+		st.overcap++
+	}
+	if mi.seriesCountLoad() != int64(nseries) {
+		st.drift++
+	}
+	st.rounds++
+}
+
+func vfChurn(f []string) string {
+	kind := f[1]
+	cap, _ := strconv.Atoi(f[2])
+	budget, _ := strconv.Atoi(f[3])
+	iters, _ := strconv.Atoi(f[4])
+	nU, _ := strconv.Atoi(f[5])
+	nC, _ := strconv.Atoi(f[6])
+	nE, _ := strconv.Atoi(f[7])
+	noise := f[8] == "1"
+	if runtime.GOMAXPROCS(0) < nU+nC+nE+1 {
+		runtime.GOMAXPROCS(nU + nC + nE + 1)
+	}
+	var st vfChurnStats
+	deadline := time.Now().Add(time.Duration(budget) * time.Millisecond)
+	for st.rounds < 3 || time.Now().Before(deadline) {
+		vfChurnRound(kind, cap, iters, nU, nC, nE, noise, &st)
+		if st.rounds >= 100000 {
+			break
+		}
+	}
+	return fmt.Sprintf("churn orphans=%d lost=%d overcap=%d drift=%d alias=%d", st.orphans, st.lost, st.overcap, st.drift, st.alias)
+}
+
 func TestVerifC20(t *testing.T) {
 	in, err := os.Open(os.Getenv("VERIF_CASES"))
 	if err != nil {
@@ -1059,6 +1251,8 @@ func TestVerifC20(t *testing.T) {
 				done <- vfConc(f)
 			case "reg", "rreg":
 				done <- vfReg(f)
+			case "churn", "rchurn":
+				done <- vfChurn(f)
 			default:
 				done <- "badline"
 			}
